@@ -13,7 +13,8 @@ The property, clause by clause:
      lifting it to exactly the new lower bound 2·MDS;
  (4) CanSend(bytesInFlight) / SendMode ∈ {any, pacing-limited} only while bytesInFlight < cwnd;
  (5) Budget ≤ one burst; bytes authorised by HasPacingBudget over any interval ≤ one burst +
-     Σ ⌊1.25·bw·Δt⌋ where bw = cwnd·10⁹/srtt is the implementation's own estimate.
+     Σ ⌊1.25·bw·max(0,Δt)⌋ where bw = cwnd·10⁹/srtt is the implementation's own estimate and Δt the
+     difference of consecutive send time stamps, in whatever order they come.
 -/
 import Uquic.Model.Cong.Sender
 
@@ -47,7 +48,7 @@ structure Ghost where
       (authorised bytes since send j) − burst_j − (allowance since send j) -/
   excess : Option Int := none
   lastSendT : Option Int := none
-  /-- send times so far were positive, non-decreasing and below 2^62 -/
+  /-- send times so far were positive and below 2^62 (they need not be monotonic) -/
   timeOK : Bool := true
 deriving Repr
 
@@ -104,8 +105,9 @@ def onOther (w w' : Nat) (what : String) : List Fail :=
 answered just before; `w` the implementation's window -/
 def onSent (g : Ghost) (t : Int) (pn : Int) (size : Nat) (retrans : Bool) (hb : Bool) (w : Nat) : Ghost × List Fail :=
   let g := if retrans then { g with largestSent := pn } else g
-  let ok := g.timeOK && decide (t > 0) && decide (t < 2 ^ 62) &&
-    (match g.lastSendT with | some t0 => decide (t0 ≤ t) | none => true)
+  -- any order of time stamps is judged (a stamp earlier than the previous send earns no tokens);
+  -- only stamps outside (0, 2^62) — the pacer's "never sent" value and int64 wrap-around — switch it off
+  let ok := g.timeOK && decide (t > 0) && decide (t < 2 ^ 62)
   if !ok then ({ g with timeOK := false, excess := none, lastSendT := some t }, [])
   else
     let cnt : Int := if hb && decide (size ≤ g.mds) then size else 0
